@@ -5,7 +5,11 @@ package pmtiles
 // Exported aliases of internal functions for the verification harness in /verif.
 // Compiled only with -tags verif; adds no behaviour.
 
-import "bytes"
+import (
+	"bytes"
+
+	"github.com/paulmach/orb"
+)
 
 func VerifFindTile(entries []EntryV3, tileID uint64) (EntryV3, bool) {
 	return findTile(entries, tileID)
@@ -90,4 +94,23 @@ func VerifMakeMultiRanges(ranges []VerifRange, baseOffset int64, maxHeaderBytes 
 		out = append(out, v)
 	}
 	return out
+}
+
+// VerifRegionBitmaps runs the region -> tile-ID-set computation of Extract on a parsed region:
+// boundary tiles and filled interior at zoom, and the relevance set after ancestor propagation down to minzoom.
+func VerifRegionBitmaps(region []byte, isBbox bool, minzoom uint8, zoom uint8) (boundary, interior, relevant []uint64, err error) {
+	var mp orb.MultiPolygon
+	if isBbox {
+		mp, err = BboxRegion(string(region))
+	} else {
+		mp, err = UnmarshalRegion(region)
+	}
+	if err != nil {
+		return nil, nil, nil, err
+	}
+	b, i := bitmapMultiPolygon(zoom, mp)
+	boundary, interior = b.ToArray(), i.ToArray()
+	b.Or(i)
+	generalizeOr(b, minzoom)
+	return boundary, interior, b.ToArray(), nil
 }
